@@ -129,6 +129,26 @@ def gen_uamiv_read_domain(rng):
             return c
 
 
+def gen_uamiv_one_day(rng):
+    """AVERAGE/INSTANT files whose steps (1, 2, 3, 4 or 6 hours; 1-6 of them; any counts, also 1) lie within one day:
+    there the record reader's time arithmetic is exact whatever the parity of the step"""
+    while True:
+        ts = rng.choice([1, 2, 3, 4, 6])
+        c = gen_uamiv_at(rng, rng.choice([1985, 2001, 2019, 2020]), rng.randint(1, 365), rng.choice([0, 0, 3, 5, 11]), tstep=ts)
+        nt = rng.randint(1, 6)
+        if 24 - c['tflag'][0][1] // 10000 <= ts * nt:
+            continue
+        import datetime as dt
+        t0 = dt.datetime.strptime('%d %06d' % tuple(c['tflag'][0]), '%Y%j %H%M%S')
+        c['tflag'] = [[int((t0 + dt.timedelta(hours=ts * i)).strftime('%Y%j')), int((t0 + dt.timedelta(hours=ts * i)).strftime('%H%M%S'))] for i in range(nt)]
+        c['etflag'] = [[int((t0 + dt.timedelta(hours=ts * (i + 1))).strftime('%Y%j')), int((t0 + dt.timedelta(hours=ts * (i + 1))).strftime('%H%M%S'))] for i in range(nt)]
+        nspec = len(c['species'])
+        c['data'] = [[[[rand_f32_bits(rng) for _ in range(c['nx'] * c['ny'])] for _ in range(c['nz'])] for _ in range(nspec)] for _ in range(nt)]
+        c['name'] = rng.choice(['AVERAGE', 'INSTANT'])
+        assert c['tflag'][0][0] == c['etflag'][-1][0]
+        return c
+
+
 def gen_uamiv_emis2d(rng):
     """2-D gridded emissions: one layer of data; the grid header says nz = 1 or (older files) nz = 0"""
     while True:
@@ -140,6 +160,26 @@ def gen_uamiv_emis2d(rng):
             c['data'] = [[spc[:1] for spc in step] for step in c['data']]
             c['hdr_nz'] = rng.choice([0, 1])
             return c
+
+
+def record_model_diff(hexbytes, r):
+    """the record reader of gridded files against its own Lean model (UamivRead.read: header walk by markers, step from
+    the first time record, count from the file header, timerange, byte positions)"""
+    rd = lib.run_model(['bin uamiv-rd ' + hexbytes])[0]
+    if 'err' in r or 'inconsistent' in r:
+        return None if rd.startswith('err') else 'record reader %s, its model reads the file (%s)' % (
+            r.get('err', r.get('inconsistent')), rd[:60])
+    if not rd.startswith('ok '):
+        return 'record-reader model: %s, the library read the file' % rd[:40]
+    _, kv = lib.parse_kv('x ' + rd[3:])
+    for k in ('nspec', 'nx', 'ny', 'nz', 'nt'):
+        if int(kv[k]) != r[k]:
+            return 'record reader %s model=%s impl=%s' % (k, kv[k], r[k])
+    if kv['species'] != r['species']:
+        return 'record reader species model=%s impl=%s' % (kv['species'], r['species'])
+    if kv['data'] != r['data']:
+        return 'record reader data differ from its model'
+    return None
 
 
 def view_of_record_reader(f):
